@@ -771,6 +771,31 @@ def decisive_probes():
                                                    % (S("p"), xyz, h(0.1), h(0.2), h(0.3), h(0.4), h(0.5), h(0.6), h(0.7), h(0.8)), "PE", "FIN")))
     P.append(("limits-from-prototype-single", prog("G " + S("g"), "PC %s 7 %s r~F/%s/%s g~F/%s/%s b~F/%s/%s in~F/%s/%s"
                                                    % (S("p"), xyz, h32(0.1), h32(0.2), h32(0.3), h32(0.4), h32(0.5), h32(0.6), h32(0.7), h32(0.8)), "PE", "FIN")))
+    # ---- decimal -> binary conversion at the precision of the field.  7.038531e-26_f32 (0x15ae43fd) is the only
+    #      magnitude among the finite f32 values whose shortest decimal text rounds to a different f32 when it is first
+    #      parsed as f64 and then narrowed (double rounding: comes back as 0x15ae43fe); it is placed in every Single-typed
+    #      position that is written as text: prototype minimum / maximum (alone, both, negative-only maximum, which also
+    #      becomes the element text), Single limits, and a Single coordinate (whose f64 widening goes into the bounds)
+    DR, NDR = "15ae43fd", "95ae43fd"
+    P.append(("limits-single-double-rounding", prog(
+        "G " + S("g"), "X %s %s" % (S("ext"), S("http://e")),
+        "PC %s 8 x~F/%s/- y~F/%s/- z~F/-/%s in~F/-/%s r~F/%s/%s g~F/%s/%s b~F/%s/- u.%s.%s~F/%s/%s"
+        % (S("p"), DR, NDR, DR, NDR, NDR, DR, NDR, DR, DR, "ext".encode().hex(), "q".encode().hex(), NDR, DR),
+        "PP 8 f%s f%s f%s f%s f%s f%s f%s f%s" % (DR, NDR, NDR, NDR, DR, NDR, DR, DR), "PE",
+        "PC %s 7 %s r~I/0/255 g~I/0/255 b~I/0/255 in~D/-/-" % (S("q"), xyz),
+        "PCL + f%s f%s f%s f%s f%s f%s" % (NDR, DR, DR, NDR, NDR, NDR), "PIL + f%s f%s" % (NDR, DR), "PE", "FIN")))
+    # the f64 side: values at the edges of the double parse (largest subnormal, 2^-1074, smallest normal, largest finite,
+    # 0.1 + 0.2, 2^53 + 2, a 17-digit value) in prototype limits, Double limits and scalar metadata
+    edge = [0x000fffffffffffff, 0x0000000000000001, 0x0010000000000000, 0x7fefffffffffffff, 0x3fd3333333333334, 0x4340000000000001, 0x3ff3c0ca428c59fb]
+    e = [h(x) for x in edge]
+    ne = [h(x | 0x8000000000000000) for x in edge]
+    P.append(("limits-double-parse-edges", prog(
+        "G " + S("g"), "CR %s:1" % e[4],
+        "PC %s 7 x~D/%s/%s y~D/%s/- z~D/-/%s in~D/%s/%s r~D/%s/%s g~D/%s/%s b~D/-/%s"
+        % (S("p"), ne[0], e[0], e[1], ne[1], ne[3], e[3], e[2], e[4], ne[5], e[5], ne[6]),
+        "PCL + d%s d%s d%s d%s d%s d%s" % (ne[0], e[1], e[2], e[3], e[4], e[6]), "PIL + d%s d%s" % (ne[3], e[5]),
+        "PTE " + e[0], "PHU " + e[4], "PAP " + e[3], "PT " + ":".join(e), "PAS %s:0" % e[6], "PE",
+        "IMG " + S("i"), "IPH j =00 - 3 2 %s %s %s %s %s" % (e[0], e[1], e[2], e[3], e[4]), "IT " + ":".join(ne), "IE", "FIN")))
     # ---- extension URLs: every character the writer escapes, alone and in sequences that an escaping done in the
     #      wrong order would escape twice or not at all
     urls = ["&", "<", ">", "\"", "'", "\t", "\n", "&amp;", "&lt;", "&gt;", "&quot;", "&#9;", "&#10;", "&#13;", "&amp;lt;", "a&b<c>d\"e'f\tg\nh&amp;&lt;&#38;"]
